@@ -93,7 +93,8 @@ func genInjected(r *rng, thorough bool, mode string, emit func(FlowScenario)) {
 			pFail: 25, pPhaseFail: 0, funcStyle: true, runs: 1, wideBatch: mode == "fail"}
 		sc := randFlow(r, p)
 		if mode == "cancel" {
-			if r.chance(50) {
+			sc.Kind = r.pick([]string{"canceled", "deadline", "deadline", "cause", "fardeadline"})
+			if false {
 				sc.Kind = "deadline"
 			}
 			// no stop-mode / cancellation interplay with more than one worker
@@ -126,8 +127,8 @@ func genLeafInjected(r *rng, mode string, emit func(FlowScenario)) {
 				}
 				t.next, t.errN = r.intn(30), r.intn(20)
 				sc := singleRun(cfg, t.leafScript(0, 0, true, m, eff+1, true, "=a"))
-				if mode == "cancel" && fs%2 == 1 {
-					sc.Kind = "deadline"
+				if mode == "cancel" {
+					sc.Kind = []string{"canceled", "deadline", "cause", "fardeadline"}[(fs+N)%4]
 				}
 				withInjections(sc, mode, emit)
 				if mode == "cancel" {
